@@ -41,6 +41,9 @@ type lifeCase struct {
 	SdBeforeServe bool       `json:"sdBeforeServe"`
 	AddrHold      bool       `json:"addrHold"`
 	TCP           bool       `json:"tcp"`
+	// HandlerMs: every handler takes this long; SdCtxMs: the context given to Shutdown expires after this long
+	HandlerMs int `json:"handlerMs"`
+	SdCtxMs   int `json:"sdCtxMs"`
 }
 
 type lifeWorld struct {
@@ -279,7 +282,9 @@ func runLife(w *writer, c *lifeCase) {
 	curWorld.Store(lw)
 
 	h := &lifeHandler{lw: lw}
-	if c.Op == "liferand" {
+	if c.HandlerMs > 0 {
+		h.delay = func() time.Duration { return time.Duration(c.HandlerMs) * time.Millisecond }
+	} else if c.Op == "liferand" {
 		h.delay = func() time.Duration {
 			rngMu.Lock()
 			defer rngMu.Unlock()
@@ -296,7 +301,11 @@ func runLife(w *writer, c *lifeCase) {
 		sdOnce.Do(func() {
 			sdStartedFlag.Store(true)
 			go func() {
-				sctx, scancel := context.WithTimeout(context.Background(), 600*time.Millisecond)
+				sdWait := 600 * time.Millisecond
+				if c.SdCtxMs > 0 {
+					sdWait = time.Duration(c.SdCtxMs) * time.Millisecond
+				}
+				sctx, scancel := context.WithTimeout(context.Background(), sdWait)
 				defer scancel()
 				t0 := time.Now()
 				err := srv.Shutdown(sctx)
